@@ -171,3 +171,116 @@ func installRegexpModel(m *Machine) {
 		return strs(st, r.Split(s, int(n))), ok && ok2
 	})
 }
+
+// installSyncMapModel: a sync.Map is modelled as a map object stored in the first field of the sync.Map value
+// (its real fields are never looked at). Range is not modelled.
+func installSyncMapModel(m *Machine) {
+	none := func(i int) string { return "" }
+	table := func(st *State, recv Val) (*MapObjV, bool) {
+		pp, ok := recv.(Ptr)
+		if !ok {
+			return nil, false
+		}
+		lv, ok := st.load(pp)
+		sv, isS := lv.(*StructV)
+		if !ok || !isS || len(sv.F) == 0 {
+			return nil, false
+		}
+		if mv, has := sv.F[0].(MapV); has {
+			st.own(mv.Obj)
+			return st.Heap[mv.Obj].V.(*MapObjV), true
+		}
+		id := st.alloc(types.NewMap(types.Typ[types.String], types.Typ[types.String]), &MapObjV{})
+		if !st.store(Ptr{Obj: pp.Obj, Path: pathAppend(pp.Path, 0)}, MapV{Obj: id}) {
+			return nil, false
+		}
+		return st.Heap[id].V.(*MapObjV), true
+	}
+	find := func(mo *MapObjV, k Val) int {
+		ks := fmtVal(k, none)
+		for i := range mo.K {
+			if fmtVal(mo.K[i], none) == ks {
+				return i
+			}
+		}
+		return -1
+	}
+	keyOK := func(k Val) bool {
+		if iv, ok := k.(IfaceV); ok {
+			k = iv.V
+		}
+		switch k.(type) {
+		case string, int64, bool, RType:
+			return true
+		}
+		return false
+	}
+	write := func(st *State, recv Val) {
+		if pp, ok := recv.(Ptr); ok {
+			st.noteGlobalWrite(pp.Obj)
+		}
+	}
+	m.Hooks["(*sync.Map).Load"] = func(m *Machine, st *State, call *ssa.CallCommon, args []Val) ([]Val, bool) {
+		mo, ok := table(st, args[0])
+		if !ok || !keyOK(args[1]) {
+			return nil, false
+		}
+		if i := find(mo, args[1]); i >= 0 {
+			return []Val{&TupleV{E: []Val{cloneVal(mo.V[i]), true}}}, true
+		}
+		return []Val{&TupleV{E: []Val{nilV{}, false}}}, true
+	}
+	m.Hooks["(*sync.Map).Store"] = func(m *Machine, st *State, call *ssa.CallCommon, args []Val) ([]Val, bool) {
+		mo, ok := table(st, args[0])
+		if !ok || !keyOK(args[1]) {
+			return nil, false
+		}
+		write(st, args[0])
+		if i := find(mo, args[1]); i >= 0 {
+			mo.V[i] = cloneVal(args[2])
+		} else {
+			mo.K = append(mo.K, cloneVal(args[1]))
+			mo.V = append(mo.V, cloneVal(args[2]))
+		}
+		return []Val{nil}, true
+	}
+	m.Hooks["(*sync.Map).LoadOrStore"] = func(m *Machine, st *State, call *ssa.CallCommon, args []Val) ([]Val, bool) {
+		mo, ok := table(st, args[0])
+		if !ok || !keyOK(args[1]) {
+			return nil, false
+		}
+		if i := find(mo, args[1]); i >= 0 {
+			return []Val{&TupleV{E: []Val{cloneVal(mo.V[i]), true}}}, true
+		}
+		write(st, args[0])
+		mo.K = append(mo.K, cloneVal(args[1]))
+		mo.V = append(mo.V, cloneVal(args[2]))
+		return []Val{&TupleV{E: []Val{cloneVal(args[2]), false}}}, true
+	}
+	del := func(andLoad bool) HookFn {
+		return func(m *Machine, st *State, call *ssa.CallCommon, args []Val) ([]Val, bool) {
+			mo, ok := table(st, args[0])
+			if !ok || !keyOK(args[1]) {
+				return nil, false
+			}
+			var old Val = nilV{}
+			found := false
+			if i := find(mo, args[1]); i >= 0 {
+				write(st, args[0])
+				old, found = mo.V[i], true
+				mo.K = append(mo.K[:i:i], mo.K[i+1:]...)
+				mo.V = append(mo.V[:i:i], mo.V[i+1:]...)
+			}
+			if andLoad {
+				return []Val{&TupleV{E: []Val{old, found}}}, true
+			}
+			return []Val{nil}, true
+		}
+	}
+	m.Hooks["(*sync.Map).Delete"] = del(false)
+	m.Hooks["(*sync.Map).LoadAndDelete"] = del(true)
+	// mutexes guard nothing the interpreter could see (one path at a time): Lock / Unlock are no-ops
+	for _, n := range []string{"(*sync.Mutex).Lock", "(*sync.Mutex).Unlock", "(*sync.RWMutex).Lock", "(*sync.RWMutex).Unlock", "(*sync.RWMutex).RLock", "(*sync.RWMutex).RUnlock"} {
+		m.Hooks[n] = func(m *Machine, st *State, call *ssa.CallCommon, args []Val) ([]Val, bool) { return []Val{nil}, true }
+	}
+}
